@@ -52,8 +52,11 @@ type protoDef struct {
 	Custom  bool     `json:"custom_sources"`    // sources configured explicitly (jwt_source/token_source)
 	// Meta: the jwks/introspection endpoint is not configured but discovered through a metadata_endpoint whose
 	// url is templated with the issuer of the token (the documented multi tenant set-up)
-	Meta   bool `json:"metadata_endpoint,omitempty"`
-	Weight int  `json:"-"`
+	Meta bool `json:"metadata_endpoint,omitempty"`
+	// Tpl: the configured jwks/introspection endpoint itself is templated with the issuer of the token, in its url
+	// ("url": one endpoint path per tenant) or in a request header ("header": X-Tenant names the tenant)
+	Tpl    string `json:"endpoint_templated_with_issuer,omitempty"`
+	Weight int    `json:"-"`
 }
 
 var bearerDefault = []source{{"header", "Authorization", "Bearer"}, {"query", "access_token", ""}, {"body", "access_token", ""}}
@@ -74,11 +77,14 @@ var protos = []protoDef{
 	{ID: "jwt_alt", Type: "jwt", Sources: jwtAltSources, Custom: true, Weight: 2},
 	{ID: "jwt_down", Type: "jwt", Down: true, Sources: bearerDefault, Weight: 1},
 	{ID: "jwt_meta", Type: "jwt", Meta: true, Sources: bearerDefault, Weight: 2},
+	{ID: "jwt_tplhdr", Type: "jwt", Tpl: "header", Sources: bearerDefault, Weight: 1},
 	{ID: "intro", Type: "intro", Sources: bearerDefault, Weight: 3},
 	{ID: "intro_fb", Type: "intro", FB: true, Sources: bearerDefault, Weight: 2},
 	{ID: "intro_alt", Type: "intro", Sources: introAltSources, Custom: true, Weight: 2},
 	{ID: "intro_down", Type: "intro", Down: true, Sources: bearerDefault, Weight: 1},
 	{ID: "intro_meta", Type: "intro", Meta: true, Sources: bearerDefault, Weight: 2},
+	{ID: "intro_tplurl", Type: "intro", Tpl: "url", Sources: bearerDefault, Weight: 2},
+	{ID: "intro_tplhdr", Type: "intro", Tpl: "header", Sources: introAltSources, Custom: true, Weight: 1},
 	{ID: "gen", Type: "gen", Sources: genSources, Custom: true, Weight: 3},
 	{ID: "gen_fb", Type: "gen", FB: true, Sources: genSources, Custom: true, Weight: 2},
 	{ID: "gen_bearer", Type: "gen", Sources: genBearerSources, Custom: true, Weight: 2},
@@ -454,6 +460,12 @@ func classify(e elem, r lreq) stepView {
 		// "does not care about the token format, thus will feel responsible for the request as soon as
 		// it finds a bearer token"
 		if p.Down {
+			sv.Verdict = vReject
+			return sv
+		}
+		if p.Tpl != "" && !(known && info.Kind == "jwt") {
+			// one introspection endpoint per issuer: a bearer token that does not name its issuer (it is not a JWT)
+			// was found but cannot be presented to anybody
 			sv.Verdict = vReject
 			return sv
 		}
